@@ -138,6 +138,12 @@ def check_message(side, r, got):
 				bad.append('path %r' % req.uri.path)
 			if bool(q) != bool(req.uri.query_string):
 				bad.append('query %r' % req.uri.query_string)
+			else:
+				# the pairs, read by the standard library's form reader (plus = space, then percent-decoding), in order
+				from urllib.parse import parse_qsl
+				want = tuple(parse_qsl(q.decode('ascii'), keep_blank_values=True, encoding='utf-8', errors='strict'))
+				if tuple(req.uri.query) != want:
+					bad.append('query pairs %r != %r' % (tuple(req.uri.query), want))
 		msg = req
 	else:
 		bad = []
